@@ -212,7 +212,8 @@ def key_blob(rng):
 class Prog:
     """one program under construction: bytes + abstract stack"""
 
-    def __init__(self, rng, tapscript=False, init=()):
+    def __init__(self, rng, tapscript=False, init=(), nosig=False):
+        self.nosig = nosig
         self.rng = rng
         self.b = bytearray()
         self.st = list(init)
@@ -445,7 +446,10 @@ class Prog:
             elif r < 0.82:
                 self.a_verify()
             elif r < 0.87:
-                self.a_checksig()
+                if self.nosig:
+                    self.a_boundary()
+                else:
+                    self.a_checksig()
             elif r < 0.92 and depth < 4:
                 self.a_if(depth)
             elif r < 0.95:
@@ -454,8 +458,8 @@ class Prog:
                 self.a_random_byte()
 
 
-def program(rng, tapscript=False, init=()):
-    p = Prog(rng, tapscript, init)
+def program(rng, tapscript=False, init=(), nosig=False):
+    p = Prog(rng, tapscript, init, nosig)
     p.block(rng.choice([1, 2, 4, 8, 12, 20, 30]))
     if rng.random() < 0.05 and p.b:
         del p.b[rng.randrange(len(p.b)):]
